@@ -125,6 +125,30 @@ def run(ctx):
             m.formulas.append(key)
             m.deps[key] = set()
             m.depth[key] = 1
+        # an array-valued formula cell whose neighbours are blank members of
+        # a range that other formulas read
+        if rng.random() < 0.5:
+            arr = (home, 9, 1)
+            m.cells[arr] = ('f', ('rng', None, 1, 1, 1, 2, gen.FALSE4))
+            for j, f_ in enumerate(('SUM', 'COUNT')):
+                key = (home, 10, j + 1)
+                m.cells[key] = ('f', ('call', f_, [('rng', None, 9, 2, 9, 3,
+                                                    gen.FALSE4)]))
+                m.order.append(key)
+                m.formulas.append(key)
+                m.deps[key] = set()
+                m.depth[key] = 1
+            key = (home, 10, 3)
+            m.cells[key] = ('f', ('bin', '*', ('ref', None, 9, 2, False,
+                                               False), gen.lit(10)))
+            m.order.append(key)
+            m.formulas.append(key)
+            m.deps[key] = set()
+            m.depth[key] = 1
+            m.order.append(arr)
+            m.formulas.append(arr)
+            m.deps[arr] = set()
+            m.depth[arr] = 1
         # twins: the same formula text on two sheets, unqualified references
         if len(sheets) == 2 and rng.random() < 0.7:
             a_, b_ = sheets
